@@ -9,6 +9,8 @@ import (
 	"context"
 	"crypto/x509"
 	"fmt"
+	"os"
+	"runtime"
 	"strings"
 	"sync"
 	"sync/atomic"
@@ -58,8 +60,8 @@ var confirmBudget atomic.Int32
 func init() { confirmBudget.Store(3) }
 
 func confirmWindow() time.Duration {
-	if confirmBudget.Add(-1) >= 0 {
-		return 4 * time.Second
+	if confirmBudget.Load() > 0 {
+		return 6 * time.Second
 	}
 	return 150 * time.Millisecond
 }
@@ -214,6 +216,13 @@ loop:
 		}
 		as, st := observe()
 		if !hung && !satisfied(as, st) {
+			if os.Getenv("C19_DEBUG") != "" {
+				for _, t := range threads.ts {
+					fmt.Fprintf(os.Stderr, "tracked %d fin=%v last=%q\n", t.goid, t.fin, lastStates[t.goid])
+				}
+				n := runtime.Stack(stackBuf, true)
+				fmt.Fprintf(os.Stderr, "=== not satisfied after quiescence: %v %v\n%s\n", as, st, stackBuf[:n])
+			}
 			// must-complete calls that have not completed: the only real-time judgement — give
 			// them several seconds before recording them as pending
 			end := time.Now().Add(confirmWindow())
@@ -227,6 +236,7 @@ loop:
 			}
 			if !satisfied(as, st) {
 				hung = true
+				confirmBudget.Add(-1) // only confirmed hangs use up the long windows
 			}
 		}
 		coqObs = append(coqObs, fmt.Sprintf("mkRobs %s %s", hx.CoqBool(as), hx.CoqList(st)))
